@@ -20,7 +20,7 @@ from __future__ import annotations
 
 import numpy as np
 
-from ..engine import post, check_function, source_info
+from ..engine import post, check_function, source_info, ContractShape
 from ..harness import lp, ro, dro, rsome, arr, sym_array
 from ..spec import dual as D, rc, views
 from ..sym import SymReal, p_and, p_eq, p_implies, p_le, ctx
@@ -356,7 +356,7 @@ def run_variant(vname):
         w, X, Z = ns["w"], ns["X"], ns["Z"]
         items = e_items(ns)
         if len(items) != len(ns["blocks"]):
-            return False
+            raise ContractShape(f"{len(items)} expectation items but {len(ns['blocks'])} alpha/beta blocks recognised among the declared variables")
         feas = D.feas(F, X)
         t = []
         for (kind, pieces), (alpha, beta) in zip(items, ns["blocks"]):
